@@ -4,9 +4,11 @@ import (
 	"bytes"
 	"fmt"
 	"io"
+	"io/fs"
 	"path"
 	"strings"
 	"sync"
+	"time"
 
 	"github.com/flosch/pongo2/v6"
 )
@@ -112,4 +114,53 @@ func (w *recWriter) Write(p []byte) (int, error) {
 		return 0, w.err
 	}
 	return w.buf.Write(p)
+}
+
+// chunkFS is an fs.FS whose files hand out at most `chunk` bytes per Read call (a legal io.Reader, like
+// compressed archives or network file systems) and support Stat.
+type chunkFS struct {
+	files map[string]string
+	chunk int
+}
+
+type chunkFile struct {
+	name  string
+	data  string
+	off   int
+	chunk int
+}
+
+type chunkInfo struct {
+	name string
+	size int64
+}
+
+func (i chunkInfo) Name() string       { return path.Base(i.name) }
+func (i chunkInfo) Size() int64        { return i.size }
+func (i chunkInfo) Mode() fs.FileMode  { return 0o444 }
+func (i chunkInfo) ModTime() time.Time { return time.Time{} }
+func (i chunkInfo) IsDir() bool        { return false }
+func (i chunkInfo) Sys() any           { return nil }
+
+func (f *chunkFile) Stat() (fs.FileInfo, error) { return chunkInfo{f.name, int64(len(f.data))}, nil }
+func (f *chunkFile) Close() error               { return nil }
+func (f *chunkFile) Read(p []byte) (int, error) {
+	if f.off >= len(f.data) {
+		return 0, io.EOF
+	}
+	n := len(p)
+	if n > f.chunk {
+		n = f.chunk
+	}
+	n = copy(p[:n], f.data[f.off:])
+	f.off += n
+	return n, nil
+}
+
+func (s *chunkFS) Open(name string) (fs.File, error) {
+	txt, ok := s.files[name]
+	if !ok {
+		return nil, &fs.PathError{Op: "open", Path: name, Err: fs.ErrNotExist}
+	}
+	return &chunkFile{name: name, data: txt, chunk: s.chunk}, nil
 }
